@@ -4,6 +4,8 @@ import (
 	"bytes"
 	"encoding/json"
 	"fmt"
+	"io"
+	"sort"
 	"strings"
 	"time"
 
@@ -193,8 +195,35 @@ func (x *c13Ctx) bed() *bed {
 			return nil
 		}
 		x.b = b
+		// an observer: a verified controller subscribed to the characteristics the inputs write to; it only drains
+		// what it receives. A write that changes a value therefore also runs the notification path.
+		if k, err := b.Dial(); err == nil {
+			if _, ec, err := refctl.PairVerify(k, idL, refctl.Seed32("c13-observer"), b.AccLTPK); err == nil && ec == 0 {
+				var ents []string
+				for _, t := range c13Targets(b) {
+					ents = append(ents, fmt.Sprintf(`{"aid":%d,"iid":%d,"ev":true}`, t.aid, t.iid))
+				}
+				k.Do("PUT", "/characteristics", refctl.CTJSON, []byte(`{"characteristics":[`+strings.Join(ents, ",")+`]}`))
+				k.C.SetReadDeadline(time.Time{})
+				go io.Copy(io.Discard, k.C)
+			}
+		}
 	}
 	return x.b
+}
+
+type c13Target struct {
+	kind     string
+	aid, iid uint64
+}
+
+// c13Targets: writable characteristics of each value format in the test bed.
+func c13Targets(b *bed) []c13Target {
+	return []c13Target{
+		{"int", b.Bulb.Accessory.ID, b.Bulb.Lightbulb.Brightness.ID},
+		{"float", b.Bulb.Accessory.ID, b.Bulb.Lightbulb.Hue.ID},
+		{"bool", b.Switch.Accessory.ID, b.Switch.Switch.On.ID},
+	}
 }
 
 func (x *c13Ctx) drop() {
@@ -442,6 +471,25 @@ func c13Inputs(b *bed, thorough bool) []c13Input {
 		"remove": refctl.TLVEncode(refctl.T(refctl.TagState, []byte{1}), refctl.T(refctl.TagMethod, []byte{4}), refctl.T(refctl.TagIdentifier, []byte("someone"))),
 		"list":   refctl.TLVEncode(refctl.T(refctl.TagState, []byte{1}), refctl.T(refctl.TagMethod, []byte{5})),
 	}
+	// pair-verify start requests whose public key is a point with a small order (or no point at all)
+	lowOrder := map[string][]byte{
+		"zero": make([]byte, 32), "one": append([]byte{1}, make([]byte, 31)...), "ff": bytes.Repeat([]byte{0xff}, 32),
+		"order8-a": {0xe0, 0xeb, 0x7a, 0x7c, 0x3b, 0x41, 0xb8, 0xae, 0x16, 0x56, 0xe3, 0xfa, 0xf1, 0x9f, 0xc4, 0x6a, 0xda, 0x09, 0x8d, 0xeb, 0x9c, 0x32, 0xb1, 0xfd, 0x86, 0x62, 0x05, 0x16, 0x5f, 0x49, 0xb8, 0x00},
+		"order8-b": {0x5f, 0x9c, 0x95, 0xbc, 0xa3, 0x50, 0x8c, 0x24, 0xb1, 0xd0, 0xb1, 0x55, 0x9c, 0x83, 0xef, 0x5b, 0x04, 0x44, 0x5c, 0xc4, 0x58, 0x1c, 0x8e, 0x86, 0xd8, 0x22, 0x4e, 0xdd, 0xd0, 0x9f, 0x11, 0x57},
+		"p-1":      {0xec, 0xff, 0xff, 0xff, 0xff, 0xff, 0xff, 0xff, 0xff, 0xff, 0xff, 0xff, 0xff, 0xff, 0xff, 0xff, 0xff, 0xff, 0xff, 0xff, 0xff, 0xff, 0xff, 0xff, 0xff, 0xff, 0xff, 0xff, 0xff, 0xff, 0xff, 0x7f},
+		"p":        {0xed, 0xff, 0xff, 0xff, 0xff, 0xff, 0xff, 0xff, 0xff, 0xff, 0xff, 0xff, 0xff, 0xff, 0xff, 0xff, 0xff, 0xff, 0xff, 0xff, 0xff, 0xff, 0xff, 0xff, 0xff, 0xff, 0xff, 0xff, 0xff, 0xff, 0xff, 0x7f},
+		"p+1":      {0xee, 0xff, 0xff, 0xff, 0xff, 0xff, 0xff, 0xff, 0xff, 0xff, 0xff, 0xff, 0xff, 0xff, 0xff, 0xff, 0xff, 0xff, 0xff, 0xff, 0xff, 0xff, 0xff, 0xff, 0xff, 0xff, 0xff, 0xff, 0xff, 0xff, 0xff, 0x7f},
+	}
+	var loNames []string
+	for n := range lowOrder {
+		loNames = append(loNames, n)
+	}
+	sort.Strings(loNames)
+	for _, st := range []string{"fresh", "verify-M1", "verified"} {
+		for _, n := range loNames {
+			out = append(out, c13Input{State: st, Method: "POST", Path: "/pair-verify", CType: refctl.CTPairing, Body: refctl.VerifyM1(lowOrder[n]), Class: "M1:public-key-" + n})
+		}
+	}
 	for _, vr := range c13DynVariants {
 		out = append(out, c13Input{State: "setup-M3", Method: "POST", Path: "/pair-setup", CType: refctl.CTPairing, Dyn: "M5-sealed:" + vr, Class: "M5-correctly-sealed:" + vr})
 		out = append(out, c13Input{State: "verify-M1", Method: "POST", Path: "/pair-verify", CType: refctl.CTPairing, Dyn: "M3-sealed:" + vr, Class: "M3-correctly-sealed:" + vr})
@@ -484,6 +532,11 @@ func c13Inputs(b *bed, thorough bool) []c13Input {
 					continue
 				}
 				out = append(out, c13Input{State: st, Method: "POST", Path: "/resource", CType: refctl.CTJSON, Body: jb.body, Class: jb.class})
+			}
+			for _, t := range c13Targets(b)[1:] {
+				for _, v := range []string{`"NaN"`, `"Inf"`, `"-Inf"`, `"+Inf"`, `"nan"`, `"1e999"`, `1e999`, `"0x10"`, `"1_0"`, `null`, `[]`, `{}`, `"str"`, `-0`, `1e308`, `-1e308`, `5e-324`} {
+					out = append(out, c13Input{State: st, Method: "PUT", Path: "/characteristics", CType: refctl.CTJSON, Body: []byte(fmt.Sprintf(`{"characteristics":[{"aid":%d,"iid":%d,"value":%s}]}`, t.aid, t.iid, v)), Class: "value-" + t.kind + ":" + v})
+				}
 			}
 			for _, rb := range []string{`{"resource-type":"image","image-width":2,"image-height":2}`, `{"resource-type":"image","image-width":-1,"image-height":2}`, `{"resource-type":"image","image-width":"2"}`, `{"resource-type":7}`, `{"resource-type":"image","image-width":1e999}`, `{"resource-type":"other"}`, `{"resource-type":"image","image-width":4294967296,"image-height":4294967296}`} {
 				out = append(out, c13Input{State: st, Method: "POST", Path: "/resource", CType: refctl.CTJSON, Body: []byte(rb), Class: "resource:" + rb})
